@@ -182,7 +182,8 @@ Section FP.
     destruct (loop_index L1 _) as [v2| |] eqn:Ev2 in H; cbn [rbind] in H; try discriminate.
     destruct (is_collinear v0 v1 v2) as [is_line| |]; cbn [rbind] in H; try discriminate.
     destruct (loop_is_diagonal L1 _) as [is_diag| |]; cbn [rbind] in H; try discriminate.
-    destruct (negb is_line && is_diag).
+    destruct (ear_test P L1 v0 v1 v2 is_line is_diag) as [is_ear| |]; cbn [rbind] in H; try discriminate.
+    destruct is_ear.
     - destruct (mesh_push v0 v1 v2 (n_triangles t) t) as [t1 r] eqn:Ep. destruct r as [n| |]; cbn [rbind] in H; try discriminate.
       unfold n_triangles in Ep. apply push_at_end in Ep. destruct Ep as (tp & Etp & Ea & Eb & Ec).
       (* the three constrain steps keep the triangles *)
